@@ -38,6 +38,7 @@ class Builder:
         if not new:
             self.steps += [{"k": "delete", "name": "c1"}, {"k": "quiesce"}]
             self.exists, self.servers = False, {}
+            self.matched = []      # a request caught between match and pick by the DELETION of its cluster is a request in flight (C15: cancelled), not judged as a pick
             return
         self.steps += [{"k": "apply", "cluster": cluster("c1", new, [0, 1])}, {"k": "quiesce"}]
         self.exists, self.servers = True, new
@@ -73,6 +74,21 @@ class Builder:
                 self.long[rid] = True
         self.steps.append(st)
 
+    def match(self, p):
+        if not self.exists:
+            return
+        self.n += 1
+        res = "pods" if p == "sub" else "deployments"
+        self.matched = getattr(self, "matched", []) + [("m%d" % self.n, res)]
+        self.steps.append({"k": "match", "id": "m%d" % self.n, "name": "c1", "resource": res})
+
+    def pop(self):
+        m = getattr(self, "matched", [])
+        if not m:
+            return
+        self.matched = m[1:]
+        self.steps.append({"k": "pop", "id": m[0][0], "resource": m[0][1]})
+
     def finish(self):
         self.steps.append({"k": "quiesce"})
         self.steps.append({"k": "joincut"})
@@ -87,6 +103,10 @@ def from_hist(sid, hist, rng):
             b.apply(h["servers"])
         elif h["k"] == "probe":
             b.probe(h["e"], h["ok"])
+        elif h["k"] == "match":
+            b.match(h["p"])
+        elif h["k"] == "pop":
+            b.pop()
         else:
             b.req(h["p"], h["k"] == "longreq")
     return b.finish()
@@ -197,8 +217,12 @@ def project(sc, events):
             out.append({"k": "cut", "stub": stub, "other": bool(still_there)})
         del pending_cuts[:]
 
+    match_ver = {}
+    version = 0
     for e in events:
         k = e["k"]
+        if k in ("applied", "deleted", "changing"):
+            version += 1
         if k in ("applied", "deleted"):
             changing = False
         if k == "changing":
@@ -249,6 +273,15 @@ def project(sc, events):
             elif s.get("host") == "c1" and rid not in arrived and "status" in e:
                 sub = subset.get("c1", []) if "/pods" in s.get("path", "") else []
                 out.append({"k": "status", "code": e["status"], "subset": sub})
+        elif k == "matched":
+            match_ver[e["id"]] = version
+        elif k == "popped":
+            sub = subset.get("c1", []) if e["resource"] == "pods" else []
+            if e["stub"] >= 0:
+                out.append({"k": "fwd", "stub": e["stub"], "subset": sub})       # judged like a forward: the endpoint must be pickable NOW
+            elif match_ver.get(e["id"]) == version:
+                out.append({"k": "status", "code": 503, "subset": sub})          # "no endpoint" is judged only when the list did not change since the match
+
         elif k == "upstream_cancelled":
             rid = e["id"]
             if rid in long_stub and not ended:
@@ -302,6 +335,13 @@ def run(prop, tier, replay):
                 states, trans = states + lf.distinct, trans + lf.generated
                 scs += life_scenarios(830001, lives, long_wait_every=0 if tier == "quick" else 10)
             if prop == "C03":
+                mp = vlib.tlc("dataplane", "Endpoints", "EndpointsMP.cfg", workers=2, timeout=600)
+                if mp.violation:
+                    raise Infra("EndpointsMP violates %s" % mp.violated())
+                mph = mp.json_prints("HIST")
+                if len(mph) != 26:
+                    raise Infra("match/pop family: expected 26 histories, got %d" % len(mph))
+                scs += [from_hist(840001 + i, h, rng) for i, h in enumerate(mph)]
                 scs.append(residual_probe_scenario(800001))
             if prop == "C15":
                 scs += removal_scenarios(810001, rng, 12 if tier == "quick" else 120)
